@@ -269,6 +269,7 @@ def shadow_check(name):
         ctx.shadow_recs.append(
             {
                 'own_inc': own_inc,
+                'S_abs': getattr(ctx.shadow, 'last_S_abs', None),
                 'at': name,
                 'block': ctx.block,
                 'slot': S.status.slot,
